@@ -566,18 +566,19 @@ def main(ctx):
     if regen_ok:
         ctx.obligation("tie:C05_NumSites+C05_Shapes regenerated", "tie", True, "; ".join(ctx.stats.get("extract", [])))
     t_build = time.time() - ctx.t0
-    names = ctx.audit("GojaModel.C05.Props", expect_min=68)
+    names = ctx.audit("GojaModel.C05.Props", expect_min=74)
     tie_errs = [e for e in errs if os.path.basename(e["file"]) == "Tie.lean" or "Generated" in e["file"]]
     tie_bad = {e["decl"] for e in tie_errs}
     dec_errs = [e for e in errs if os.path.basename(e["file"]) in ("DecTie.lean", "C05_Decisions.lean", "GenPrelude.lean")]
     dec_bad = {e["decl"] for e in dec_errs}
     for t in ("floatToInt_tie", "intToValue_tie", "floatToValue_tie", "floatToIntClip_tie", "toLength_tie", "toIndex_tie", "float64ToInt64Mod_tie", "intCache_tie",
-              "mulNegZeroGuard_tie", "mulFitsGuard_tie", "modGuards_tie", "parseIntGuards_tie"):
+              "mulNegZeroGuard_tie", "mulFitsGuard_tie", "modGuards_tie", "parseIntGuards_tie",
+              "sameAs_tie", "strictEquals_tie", "hash_tie", "normKey_tie", "toIntN_tie"):
         # translated Go decision function = hand model, for all inputs (DecTie.lean); checked by the lake build above
         if regen_ok and t not in dec_bad and not any(os.path.basename(e["file"]) != "DecTie.lean" or e["decl"] in ("?", "lake build") for e in dec_errs):
             ctx.obligation("tie:GojaModel.C05.DecTie." + t, "tie", True, "translated function proved equal to the model")
-    for t in ("numSites_ok", "wrappers_ok", "wrappers_canonical", "maxInt_tie", "whitespace_tie", "conversions_tie",
-              "strnum_tie", "identity_tie", "includes_tie", "mathsign_tie", "parseint_tie"):
+    for t in ("numSites_ok", "wrappers_ok", "wrappers_canonical", "maxInt_tie", "whitespace_tie",
+              "strnum_tie", "includes_tie", "mathsign_tie", "parseint_tie"):
         # Tie theorems are `rfl`/`decide` over regenerated data: checked by the lake build above; a failing one is already a
         # broken obligation named lean:…Tie.lean:<theorem>; here the ones that still check are recorded as discharged
         if regen_ok and t not in tie_bad and not any(os.path.basename(e["file"]).startswith("C05_") or e["decl"] in ("?", "lake build") for e in tie_errs):
